@@ -151,6 +151,11 @@ pub(crate) struct ScriptedTransport {
 
 impl Transport for ScriptedTransport {
     fn dial(&mut self, connection_id: ConnectionId, address: Multiaddr) -> crate::Result<()> {
+        // `TcpTransport::dial` parses the address first and fails synchronously if it cannot
+        {
+            use crate::transport::common::listener::{GetSocketAddr, TcpAddress};
+            TcpAddress::multiaddr_to_socket_address(&address)?;
+        }
         self.shared.lock().calls.push(Call::Dial {
             id: connection_id.verif_raw(),
             address,
